@@ -13,7 +13,8 @@ EXPLANATION = (
     '_get_restart_args() (or is supplied by restart itself), and each key carries the attribute that stores that parameter. '
     'R3: the re-initialisation goes through type(self).__init__(self, *args, results_pipe=..., **kwargs, _is_restart=True); '
     'each persistent constructor creates a fresh input channel; _init_child resets the counter (C05.R3). R4: '
-    'Pool.restart_workers supplies a fresh results pipe and re-keys both tables (C09.R2).')
+    'Pool.restart_workers supplies a fresh results pipe and re-keys both tables (C09.R2).'
+    " R3 also: the dead flag raised by the base constructor is lowered only behind the start of the child (dominance; shared with C04.R3), so a restart() that fails while starting leaves a worker that can be restarted again. R1 also: restart() hands its caller's own *args/**kwargs to terminate() untouched.")
 TECHNIQUE = 'dominance on the CFG of restart + set comparison over the resolved __init__ chains'
 
 PERSISTENT = ['PersistentThreadWorker', 'PersistentProcessWorker', 'PersistentRemoteWorker']
